@@ -5,7 +5,7 @@ A key builder of `types/keys.go` is described by a `List Seg`: the sequence of p
 concatenates.  `Keys/Generated.lean` (written by `harness/cmd/factgen` from the Go source
 on every run) contains one such list per Go function; this file gives the lists their
 meaning (`encode`) and states what the real code guarantees about the pieces
-(`Shape`, `WF`, `BechOK`).
+(`Shape`, `WFEnv`, `BechOK`).
 
 Fields are numbered (`Generated.F.*`); one number per Go parameter *name*, so the
 `serviceName` of a subspace function and the `serviceName` of the key function it scans are
@@ -86,7 +86,7 @@ def Seg.shape (sh : Nat → Shape) : Seg → Shape
   | .be w _ => .fixed w
 
 /-- well-formed environment: every byte-string field has its declared shape -/
-def WF (sh : Nat → Shape) (e : Env) : Prop := ∀ f, (sh f).ok (e.b f)
+def WFEnv (sh : Nat → Shape) (e : Env) : Prop := ∀ f, (sh f).ok (e.b f)
 
 /-- two environments give every piece of `l` the same bytes -/
 def Agree (bech : Bytes → Bytes) (l : List Seg) (e₁ e₂ : Env) : Prop :=
